@@ -147,8 +147,16 @@ def run_deleted(case):
     try:
         m1, _ = zoo.fit(cls, masked, "time", cfg, rot_cfg=rot)
     except Exception as e:  # noqa: BLE001
-        F.append(Finding("oracle", "fit_masked_eq_fit_deleted", cc + "|raises", f"fit on data with fully missing samples {rows} / cells {cols} raised {type(e).__name__}: {str(e)[:140]}"))
-        return {"findings": F, "info": {}}
+        # "the fitted model is the one obtained by deleting them beforehand": if the fit of the deleted data is refused in the same
+        # way (e.g. the rotation does not converge on these numbers), both behave alike and nothing is claimed
+        try:
+            zoo.fit(cls, deleted, "time", cfg, rot_cfg=rot)
+            same = False
+        except Exception as e2:  # noqa: BLE001
+            same = type(e2) is type(e)
+        if not same:
+            F.append(Finding("oracle", "fit_masked_eq_fit_deleted", cc + "|raises", f"fit on data with fully missing samples {rows} / cells {cols} raised {type(e).__name__}: {str(e)[:140]}"))
+        return {"findings": F, "info": {"dist": {"outcome": "both-refused" if same else "raises"}}}
     m2, _ = zoo.fit(cls, deleted, "time", cfg, rot_cfg=rot)
     checks = 0
     # identical spectra / scores on remaining labels
